@@ -84,11 +84,21 @@ pub fn detect_win_multiplicator(
     // 4. Check special MTU cases
     if mss > 0 {
         if total_header > 0 {
-            check_mtu_div!(mss.saturating_add(total_header));
+            if let Some(mtu) = mss.checked_add(total_header) {
+                check_mtu_div!(mtu);
+            }
         } else {
             match ip_ver {
-                IpVersion::V4 => check_mtu_div!(mss.saturating_add(MIN_TCP4)),
-                IpVersion::V6 => check_mtu_div!(mss.saturating_add(MIN_TCP6)),
+                IpVersion::V4 => {
+                    if let Some(mtu) = mss.checked_add(MIN_TCP4) {
+                        check_mtu_div!(mtu);
+                    }
+                }
+                IpVersion::V6 => {
+                    if let Some(mtu) = mss.checked_add(MIN_TCP6) {
+                        check_mtu_div!(mtu);
+                    }
+                }
                 _ => {}
             }
         }
